@@ -153,7 +153,7 @@ fn mmul(a: &M, b: &M) -> M { let mut o = [[0.0; 3]; 3]; for i in 0..3 { for j in
 fn mvec(a: &M, v: [f64; 3]) -> [f64; 3] { [a[0][0] * v[0] + a[0][1] * v[1] + a[0][2] * v[2], a[1][0] * v[0] + a[1][1] * v[1] + a[1][2] * v[2], a[2][0] * v[0] + a[2][1] * v[1] + a[2][2] * v[2]] }
 fn minv(m: &M) -> M {
     let d = m[0][0] * (m[1][1] * m[2][2] - m[1][2] * m[2][1]) - m[0][1] * (m[1][0] * m[2][2] - m[1][2] * m[2][0]) + m[0][2] * (m[1][0] * m[2][1] - m[1][1] * m[2][0]);
-    let c = |a: usize, b: usize, cc: usize, dd: usize| (m[a][b] * m[cc][dd]);
+    let c = |a: usize, b: usize, cc: usize, dd: usize| m[a][b] * m[cc][dd];
     [[(c(1, 1, 2, 2) - c(1, 2, 2, 1)) / d, (c(0, 2, 2, 1) - c(0, 1, 2, 2)) / d, (c(0, 1, 1, 2) - c(0, 2, 1, 1)) / d],
      [(c(1, 2, 2, 0) - c(1, 0, 2, 2)) / d, (c(0, 0, 2, 2) - c(0, 2, 2, 0)) / d, (c(0, 2, 1, 0) - c(0, 0, 1, 2)) / d],
      [(c(1, 0, 2, 1) - c(1, 1, 2, 0)) / d, (c(0, 1, 2, 0) - c(0, 0, 2, 1)) / d, (c(0, 0, 1, 1) - c(0, 1, 1, 0)) / d]]
